@@ -1155,6 +1155,10 @@ namespace detail {
                         this->tail_select(context, root, 
                                             path_generator_type::generate(context, last, j, options), 
                                             current[j], receiver, options);
+                        if (step >= end - i) // next index is past the end, and i + step could overflow
+                        {
+                            break;
+                        }
                     }
                 }
                 else if (step < 0)
@@ -1174,6 +1178,10 @@ namespace detail {
                         {
                             this->tail_select(context, root, 
                                                 path_generator_type::generate(context, last,j,options), current[j], receiver, options);
+                        }
+                        if (step <= end - i) // next index is before the end, and i + step could overflow
+                        {
+                            break;
                         }
                     }
                 }
